@@ -171,6 +171,57 @@ def check(ctx):
     wr = [(f.qualname, norm(s)) for f in m.mod(RD).all_funcs() for s in walk_own(f.node) if isinstance(s, (ast.Assign, ast.AugAssign)) and
           norm(s.targets[0] if isinstance(s, ast.Assign) else s.target).split('.')[-1] == ctr.split('.')[-1] and f.qualname not in ('_RadioDriverThread.run', '_RadioDriverThread.__init__')]
     ctx.inst('R7', run, 'no-other-counter-writers', not wr, 'other writers of the failure counter: %s' % wr)
+    # the loop recognises a lost transmission by `ack is False` (identity): what the dongle driver stores in `.ack` must be a real
+    # bool - the int of `status & 1` is never `False`, every loss would count as an (empty) acknowledgement
+    CRD = 'cflib/drivers/crazyradio.py'
+    identity_test = any(isinstance(c_, ast.Compare) and any(isinstance(o_, (ast.Is, ast.IsNot)) for o_ in c_.ops) and norm(c_.left).endswith('.ack') for c_ in walk_own(run.node))
+    ack_w = []
+    if m.exists(CRD):
+        for f_ in m.mod(CRD).all_funcs():
+            for s_ in walk_own(f_.node):
+                if isinstance(s_, ast.Assign) and any(isinstance(t_, ast.Attribute) and t_.attr == 'ack' for t_ in s_.targets):
+                    v_ = s_.value
+                    booly = (isinstance(v_, ast.Constant) and isinstance(v_.value, bool)) or isinstance(v_, (ast.Compare, ast.BoolOp)) or \
+                        (isinstance(v_, ast.UnaryOp) and isinstance(v_.op, ast.Not)) or (isinstance(v_, ast.Call) and norm(v_.func) == 'bool')
+                    if isinstance(v_, ast.BoolOp):
+                        booly = all(isinstance(x_, (ast.Compare, ast.Constant)) or (isinstance(x_, ast.UnaryOp) and isinstance(x_.op, ast.Not)) for x_ in v_.values)
+                    if isinstance(v_, ast.Name) and f_.name == '__init__' and v_.id in f_.params and f_.cls is not None:
+                        # a constructor parameter: what the constructor calls of the module pass for it (and its default)
+                        def _b(e_):
+                            return (isinstance(e_, ast.Constant) and isinstance(e_.value, bool)) or isinstance(e_, ast.Compare) or (isinstance(e_, ast.UnaryOp) and isinstance(e_.op, ast.Not)) or \
+                                (isinstance(e_, ast.Call) and norm(e_.func) == 'bool')
+                        idx_ = f_.params.index(v_.id) - 1
+                        given = []
+                        for g_ in m.mod(CRD).all_funcs():
+                            for c_ in walk_own(g_.node):
+                                if isinstance(c_, ast.Call) and norm(c_.func).split('.')[-1] == f_.cls.name:
+                                    kw_ = [k_.value for k_ in c_.keywords if k_.arg == v_.id]
+                                    if kw_:
+                                        given.append(kw_[0])
+                                    elif idx_ < len(c_.args):
+                                        given.append(c_.args[idx_])
+                        dflt_ = (f_.defaults() if callable(f_.defaults) else f_.defaults).get(v_.id)
+                        booly = all(_b(e_) for e_ in given) and (dflt_ is None or _b(dflt_)) and (bool(given) or dflt_ is not None)
+                    ack_w.append((f_.qualname, norm(s_)[:50], booly))
+    if m.exists(CRD):
+        def _b2(e_):
+            return (isinstance(e_, ast.Constant) and isinstance(e_.value, bool)) or isinstance(e_, ast.Compare) or (isinstance(e_, ast.UnaryOp) and isinstance(e_.op, ast.Not)) or \
+                (isinstance(e_, ast.Call) and norm(e_.func) == 'bool')
+        # ... a class-level default `ack = False` and `ack=` keywords of constructor calls store into the same field
+        for k_ in m.mod(CRD).all_classes():
+            for st_ in k_.node.body:
+                if isinstance(st_, ast.Assign) and [norm(t_) for t_ in st_.targets] == ['ack']:
+                    ack_w.append((k_.qualname, norm(st_)[:50], _b2(st_.value)))
+                elif isinstance(st_, ast.AnnAssign) and norm(st_.target) == 'ack' and st_.value is not None:
+                    ack_w.append((k_.qualname, norm(st_)[:50], _b2(st_.value)))
+        for f_ in m.mod(CRD).all_funcs():
+            for c_ in walk_own(f_.node):
+                if isinstance(c_, ast.Call):
+                    for kw_ in c_.keywords:
+                        if kw_.arg == 'ack':
+                            ack_w.append((f_.qualname, 'ack=%s' % norm(kw_.value)[:40], _b2(kw_.value)))
+    ctx.inst('R7', run, 'ack-flag-is-a-bool', not identity_test or (bool(ack_w) and all(b_ for _, _, b_ in ack_w)),
+             'the radio loop tests `.ack is False`; values stored in .ack by the dongle driver: %s' % [(q_, t_) for q_, t_, b_ in ack_w if not b_])
     # the configured number is the number: the setter stores its argument as given (n + 1, max(n, 1) ... report after a different
     # number of losses than the application asked for), and nothing else writes the module-level limit
     lim_w = [(f, s_) for f in m.mod(RD).all_funcs() for s_ in walk_own(f.node) if isinstance(s_, (ast.Assign, ast.AugAssign, ast.AnnAssign)) and
